@@ -67,7 +67,9 @@ var dsMsgSize = 0
 
 type dsOnly struct{ *dstore.Store }
 
-func (d dsOnly) SaveOffset(ctx context.Context, id string, o eb.Offset) error { return fmt.Errorf("unsupported") }
+func (d dsOnly) SaveOffset(ctx context.Context, id string, o eb.Offset) error {
+	return fmt.Errorf("unsupported")
+}
 func (d dsOnly) LoadOffset(ctx context.Context, id string) (eb.Offset, error) {
 	return "", fmt.Errorf("unsupported")
 }
